@@ -317,6 +317,18 @@ def unit_c18_table():
                     except SystemExit as e: rc = ("exit", e.code)
                 want = 3 if any(f != "good" for f in fl) else 0
                 return None if rc == want else {"expected": "exit %d" % want, "observed": "exit %r" % (rc,)}
+            # a file that cannot be read stays "cannot be read" (3) also when the CID has an end-of-data check that fails on zero rows
+            ecid = w("ecid.csv", "d,format,delimited\nf,id,,,,Integer\nf,name\nc,some,DistinctCount,name >= 1\n")
+            def ecases():
+                for fl in (["accepted"], ["missing"], ["directory"], ["accepted", "missing"], ["missing", "accepted"]): yield fl
+            def echeck(fl):
+                with contextlib.redirect_stderr(io.StringIO()):
+                    try: rc = applications.main(["cutplace", ecid] + [files[f][0] for f in fl])
+                    except SystemExit as e: rc = ("exit", e.code)
+                want = 3 if any(files[f][1] == 3 for f in fl) else 0
+                return None if rc == want else {"expected": "exit %d" % want, "observed": "exit %r" % (rc,)}
+            r4 = sweep("C18/table/an unreadable file exits with 3 also under a CID whose end-of-data check fails on zero rows", ecases(), echeck, "bounded", "CID with DistinctCount name >= 1 x 5 file lists over {accepted, missing, directory}",
+                       describe=lambda c: {"files": c}, function="applications.main + validio.BaseValidator.__exit__", unit="C18.table")
             r3 = sweep("C18/table/a named Excel data file that cannot be read exits with 3", xcases(), xcheck, "bounded", "Excel CID x 6 file lists over {readable workbook, missing file, directory}", describe=lambda c: {"files": c},
                        function="applications.main + rowio.excel_rows", unit="C18.table")
             def argcases():
@@ -327,7 +339,7 @@ def unit_c18_table():
                     except SystemExit as e: rc = ("exit", e.code)
                 return None if rc == ("exit", 2) else {"expected": "argument error, exit code 2", "observed": repr(rc)}
             r2 = sweep("C18/table/unusable arguments exit with 2", argcases(), argcheck, "bounded", "4 unusable argument lists", function="applications.main", unit="C18.table")
-            return [r1, r2, r3]
+            return [r1, r2, r3, r4]
         finally:
             shutil.rmtree(tmp, ignore_errors=True)
     return NativeUnit("C18.table", "bounded end-to-end table of exit codes through applications.main (in-process)", ["C18"], run, kind="bounded")
